@@ -127,6 +127,33 @@ impl<T: Ord> Ord for RunElement<T> {
     }
 }
 
+/// Heap entry ordered by the sorter's comparator (reversed, so that `BinaryHeap` pops the
+/// minimum): run generation and the final merge must agree on the order.
+struct ByComparator<'a, T, F> {
+    element: RunElement<T>,
+    comparator: &'a F,
+}
+
+impl<'a, T, F: Fn(&T, &T) -> Ordering> PartialEq for ByComparator<'a, T, F> {
+    fn eq(&self, other: &Self) -> bool {
+        self.cmp(other) == Ordering::Equal
+    }
+}
+
+impl<'a, T, F: Fn(&T, &T) -> Ordering> Eq for ByComparator<'a, T, F> {}
+
+impl<'a, T, F: Fn(&T, &T) -> Ordering> PartialOrd for ByComparator<'a, T, F> {
+    fn partial_cmp(&self, other: &Self) -> Option<Ordering> {
+        Some(self.cmp(other))
+    }
+}
+
+impl<'a, T, F: Fn(&T, &T) -> Ordering> Ord for ByComparator<'a, T, F> {
+    fn cmp(&self, other: &Self) -> Ordering {
+        (self.comparator)(&other.element.value, &self.element.value)
+    }
+}
+
 /// Temporary run file for external sorting
 struct TempRun {
     file_path: PathBuf,
@@ -356,7 +383,10 @@ where
         // At least one element must fit, otherwise nothing would ever be read from the input
         // and the whole data set would be dropped silently.
         let memory_items = (self.config.memory_buffer_size / std::mem::size_of::<T>().max(1)).max(1);
-        let mut heap = BinaryHeap::with_capacity(memory_items);
+        // The heap is ordered by the configured comparator, not by `T: Ord`
+        let comparator = self.comparator.clone();
+        let comparator = &comparator;
+        let mut heap: BinaryHeap<ByComparator<'_, T, F>> = BinaryHeap::with_capacity(memory_items);
         let mut input_iter = input.into_iter();
         let mut current_run = 0;
         let mut run_items = 0;
@@ -366,7 +396,7 @@ where
         // Fill initial heap
         for _ in 0..memory_items {
             if let Some(item) = input_iter.next() {
-                heap.push(RunElement::new(item, current_run, self.stats.items_sorted));
+                heap.push(ByComparator { element: RunElement::new(item, current_run, self.stats.items_sorted), comparator });
                 self.stats.items_sorted += 1;
             } else {
                 break;
@@ -376,7 +406,7 @@ where
         while !heap.is_empty() {
             // Get minimum element
             // SAFETY: !heap.is_empty() check above guarantees pop() succeeds
-            let min_element = heap.pop().unwrap();
+            let min_element = heap.pop().unwrap().element;
 
             // Start new run file if needed
             if temp_writer.is_none() {
@@ -399,20 +429,20 @@ where
                 // Check if next item can be added to current run
                 if (self.comparator)(&next_item, &min_element.value) != Ordering::Less {
                     // Can extend current run
-                    heap.push(RunElement::new(next_item, current_run, self.stats.items_sorted));
+                    heap.push(ByComparator { element: RunElement::new(next_item, current_run, self.stats.items_sorted), comparator });
                 } else {
                     // Must start new run
-                    heap.push(RunElement::new(next_item, current_run + 1, self.stats.items_sorted));
+                    heap.push(ByComparator { element: RunElement::new(next_item, current_run + 1, self.stats.items_sorted), comparator });
 
                     // Close current run if heap is empty or next min is from new run
-                    if heap.is_empty() || heap.peek().map(|e| e.run_id).unwrap_or(0) > current_run {
+                    if heap.is_empty() || heap.peek().map(|e| e.element.run_id).unwrap_or(0) > current_run {
                         self.finish_run(&mut temp_writer, current_temp_path.take().unwrap(), run_items)?;
                         current_run += 1;
                     }
                 }
             } else {
                 // No more input, finish current run when heap empties
-                if heap.is_empty() || heap.peek().map(|e| e.run_id).unwrap_or(0) > current_run {
+                if heap.is_empty() || heap.peek().map(|e| e.element.run_id).unwrap_or(0) > current_run {
                     self.finish_run(&mut temp_writer, current_temp_path.take().unwrap(), run_items)?;
                     current_run += 1;
                 }
